@@ -42,10 +42,29 @@ def BinOp.sym : BinOp → String
 
 def BinOp.snap (o : BinOp) : Snap := o.sym.toList
 
+def hexDigit (n : Nat) : Char := if n < 10 then Char.ofNat (48 + n) else Char.ofNat (87 + n)
+
+def hexPad (width n : Nat) : List Char :=
+  (List.range width).reverse.map (fun i => hexDigit ((n / 16^i) % 16))
+
+/-- strconv.QuoteToASCII -/
+def quoteASCIIChar (c : Char) : List Char :=
+  let n := c.toNat
+  if c == '"' then ['\\', '"'] else if c == '\\' then ['\\', '\\']
+  else if n == 7 then ['\\', 'a'] else if n == 8 then ['\\', 'b'] else if n == 12 then ['\\', 'f']
+  else if n == 10 then ['\\', 'n'] else if n == 13 then ['\\', 'r'] else if n == 9 then ['\\', 't']
+  else if n == 11 then ['\\', 'v']
+  else if n < 32 || n == 127 then ['\\', 'x'] ++ hexPad 2 n
+  else if n < 128 then [c]
+  else if n < 65536 then ['\\', 'u'] ++ hexPad 4 n
+  else ['\\', 'U'] ++ hexPad 8 n
+
+def quoteASCII (s : String) : List Char := ['"'] ++ (s.toList.flatMap quoteASCIIChar ++ ['"'])
+
 def snapC : Const → Snap
-  | .str s => t_C ++ ("string->\"".toList ++ (s.toList ++ "\")".toList))
+  | .str s => t_C ++ ("string->".toList ++ (quoteASCII s ++ t_close))
   | .int i => t_C ++ ("int64->".toList ++ (intChars i ++ t_close))
-  | .float b => t_C ++ ("float64->".toList ++ (fmtF6Chars b ++ t_close))
+  | .float b => t_C ++ ("float64->".toList ++ (fmtShortestChars b ++ t_close))
   | .bool b => t_C ++ ("bool->".toList ++ ((toString b).toList ++ t_close))
   | .nil => t_C ++ ("invalid->".toList ++ t_close)
 
